@@ -269,7 +269,7 @@ def run_case(case, npoints, seed):
         except AssertionError as e:
             return ("selfcheck", "optimise_operator's own check failed: %s" % str(e)[:200], None), None
         except Exception as e:
-            return ("raised", "optimise_operator raised %s: %s" % (type(e).__name__, str(e)[:200]), None), None
+            return ("raised:" + type(e).__name__, "optimise_operator raised %s: %s" % (type(e).__name__, str(e)[:200]), None), None
     f = compare(ift, op, opt, dom, used_keys(nodes), rng, npoints)
     return f, (op, opt, inv)
 
@@ -374,7 +374,7 @@ class C05(C.Check):
                 nev += 1
                 f, _ = run_case(c, c.get("npoints", 10), c.get("seed", 0))
                 if f:
-                    res.add_failing({"fn": "optimise_operator", "check": f[0]}, f[1], c)
+                    res.add_failing(sig(f), f[1], c)
         order = list(hints) + [i for i in range(len(self.cases)) if i not in set(hints)]
         lim = (40 if ctx.quick else 400) * budget
         allcases = list(self.cases) + self.gen_linear_cases(ctx, (25 if ctx.quick else 250) * budget)
@@ -386,7 +386,7 @@ class C05(C.Check):
             if f is None and self.results.get(ci) is not None:
                 f = self.results[ci]
             if f:
-                res.add_failing({"fn": "optimise_operator", "check": f[0]}, f[1],
+                res.add_failing(sig(f), f[1],
                                 dict(c, kind="direct", npoints=8 * budget, seed=ctx.seed * 1000 + ci + 500000, point=f[2]))
                 if len(res.failing) >= 3:
                     break
@@ -398,6 +398,12 @@ class C05(C.Check):
         if f:
             print("  still fails: %s: %s" % (f[0], f[1]))
         return f is not None
+
+
+def sig(f):
+    if f[0].startswith("raised:"):
+        return {"fn": "optimise_operator", "check": "raised", "error": f[0][7:]}
+    return {"fn": "optimise_operator", "check": f[0]}
 
 
 def _hist(xs):
